@@ -176,13 +176,29 @@ def convergence(chk, t, rng):
                 comps = [(1, 0), (0, 1), (1, 1), (2, -1), (3, 1)] if t == "quick" else [(1, 0), (0, 1), (1, 1), (2, -1), (3, 1), (-2, 2), (3, -2), (1, 2)]
                 if n0 >= 96:
                     comps = comps[1:4]
-                for (mx, my) in comps:
+                # variants of the family: the profiles as they are; the same column with other horizontal diffusivities solved
+                # right after it (same z, u, v, Kz: nothing of the earlier solve may survive in the process); a wind that
+                # turns with height (30 degrees of veering over the column)
+                def f_aniso(zz, f=f):
+                    u_, v_, Kx_, Ky_, Kz_ = f(zz)
+                    return (u_, v_, 2.5 * Kx_, 0.4 * Ky_, Kz_)
+
+                def f_veer(zz, f=f, z0=z0, ztop=ztop):
+                    u_, v_, Kx_, Ky_, Kz_ = f(zz)
+                    th = (np.pi / 6.0) * (zz - z0) / (ztop - z0)
+                    return (u_ * np.cos(th) - v_ * np.sin(th), u_ * np.sin(th) + v_ * np.cos(th), Kx_, Ky_, Kz_)
+
+                runs = [("plain", f, c) for c in comps] + [("other Kx, Ky after the plain solve", f_aniso, comps[2 % len(comps)]), ("veering wind", f_veer, comps[1 % len(comps)])]
+                for (variant, fv, (mx, my)) in runs:
                     kx, ky = 2 * np.pi * mx / domain[0], 2 * np.pi * my / domain[1]
                     errs, rel_dz = [], []
                     skip = False
                     for nn in (n0, 4 * n0):
                         z = grid_of(gk, z0, ztop, nn)
-                        prof = tuple(np.asarray(a, dtype=float) * np.ones_like(z) for a in f(z))
+                        if variant.startswith("other"):
+                            prof0 = tuple(np.asarray(a, dtype=float) * np.ones_like(z) for a in f(z))
+                            code_response(z, prof0, mx, my, nxy, domain, [0, nn // 4, nn // 2])          # the earlier solve
+                        prof = tuple(np.asarray(a, dtype=float) * np.ones_like(z) for a in fv(z))
                         u, v, Kx, Ky, Kz = prof
                         dz = np.diff(z)
                         T = -(Kx * kx ** 2 + Ky * ky ** 2) - 1j * (u * kx + v * ky)
@@ -191,7 +207,7 @@ def convergence(chk, t, rng):
                             break
                         lv = [0, nn // 3, (2 * nn) // 3, nn] if (mx + my) % 2 else [0, nn // 4, nn // 2]     # with and without the top node among the outputs
                         heights = [float(z[k]) for k in lv]
-                        ex, growth = exact_response(f, float(z[0]), float(z[-1]), kx, ky, heights)
+                        ex, growth = exact_response(fv, float(z[0]), float(z[-1]), kx, ky, heights)
                         if growth > 18.0:
                             skip = True
                             break
@@ -203,14 +219,14 @@ def convergence(chk, t, rng):
                     if skip:
                         continue
                     n += 1
-                    chk.case(json.dumps([fam, gk, n0, mx, my]))
-                    sc = {"kind": "convergence", "family": fam, "grid": gk, "layers": [n0, 4 * n0], "component": [mx, my], "errors": errs, "relative_layer_thickness": rel_dz}
+                    chk.case(json.dumps([fam, variant, gk, n0, mx, my]))
+                    sc = {"kind": "convergence", "family": fam, "variant": variant, "grid": gk, "layers": [n0, 4 * n0], "component": [mx, my], "errors": errs, "relative_layer_thickness": rel_dz}
                     if errs[0] > 1e-9:
                         worst_ratio = min(worst_ratio, errs[0] / max(errs[1], 1e-300))
                         worst_c = max(worst_c, errs[0] / rel_dz[0])
                         if errs[1] > errs[0] / 2.5:
-                            chk.violation("component (%d,%d), %s profiles, %s grid: the error against the exact solution is %.3e with %d layers and %.3e with %d (quartered thickness): it does not shrink 2.5 times"
-                                          % (mx, my, fam, gk, errs[0], n0, errs[1], 4 * n0), sc, klass={"check": "convergence_ratio", "family": fam})
+                            chk.violation("component (%d,%d), %s profiles (%s), %s grid: the error against the exact solution is %.3e with %d layers and %.3e with %d (quartered thickness): it does not shrink 2.5 times"
+                                          % (mx, my, fam, variant, gk, errs[0], n0, errs[1], 4 * n0), sc, klass={"check": "convergence_ratio", "family": fam, "variant": variant})
                             continue
                         if errs[0] > 6.0 * rel_dz[0]:
                             # "a small multiple" has no number in the property: reported, not an alarm
